@@ -168,6 +168,27 @@ class _Interp:
         if isinstance(e, (ast.Tuple, ast.List)) and isinstance(e.ctx, ast.Load):
             vals = [self.expr(x, env) for x in e.elts]
             return tuple(vals) if isinstance(e, ast.Tuple) else vals
+        if isinstance(e, ast.Compare) and len(e.ops) == 1:
+            a, b = self.expr(e.left, env), self.expr(e.comparators[0], env)
+            op = e.ops[0]
+            plain = (str, int, type(None))
+            if isinstance(op, (ast.In, ast.NotIn)) and isinstance(b, (tuple, list)) and isinstance(a, plain) \
+                    and all(isinstance(x, plain) for x in b):
+                return (a in b) == isinstance(op, ast.In)
+            if isinstance(op, (ast.Is, ast.IsNot)) and b is None:
+                return (a is None) == isinstance(op, ast.Is)
+            if isinstance(a, int) and isinstance(b, int) and not isinstance(a, bool) and not isinstance(b, bool):
+                for k, f in ((ast.Eq, a == b), (ast.NotEq, a != b), (ast.Lt, a < b), (ast.LtE, a <= b),
+                             (ast.Gt, a > b), (ast.GtE, a >= b)):
+                    if isinstance(op, k):
+                        return f
+            raise ExtractError("comparison not understood: " + ast.unparse(e)[:80])
+        if isinstance(e, ast.Call) and isinstance(e.func, ast.Name) and e.func.id == "len" and "len" not in env \
+                and "len" not in self.consts and "len" not in self.funcs and len(e.args) == 1 and not e.keywords:
+            v = self.expr(e.args[0], env)
+            if isinstance(v, (list, tuple, str)):
+                return len(v)
+            raise ExtractError("len() of something that is not a list / tuple / string")
         if isinstance(e, ast.Call):
             return self.call(e, env)
         raise ExtractError("expression not understood: " + ast.unparse(e)[:80])
@@ -224,6 +245,10 @@ class _Interp:
                 env[st.target.id] = a + b
             elif isinstance(st, ast.Expr) and isinstance(st.value, ast.Call):
                 self.call(st.value, env)
+            elif isinstance(st, ast.Assert) and st.msg is None:
+                # evaluated, not skipped: on the sentinel runs (which cover every path) it has to hold
+                if self.expr(st.test, env) is not True:
+                    raise ExtractError("assertion does not hold on the probe run: " + ast.unparse(st.test)[:80])
             elif isinstance(st, ast.Return):
                 raise _Return(None if st.value is None else self.expr(st.value, env))
             elif isinstance(st, ast.If):
@@ -517,6 +542,101 @@ def serialise_shape(enc_tree):
     return "SkipOnException"
 
 
+# ------------------------------------------------------------------------------------------------------------
+# add / serialize_traces by observation: journal of the real code on a journaling connection and trace generator
+# ------------------------------------------------------------------------------------------------------------
+def probe():
+    """journal produced by harness/store_probe.py on the tree under test, or None when the probe cannot run there
+    (then the syntactic matchers decide)"""
+    import json
+    import subprocess
+    env = dict(os.environ)
+    env["PYTHONPATH"] = common.REPO + os.pathsep + common.VERIF
+    env["PYTHONHASHSEED"] = "0"
+    env["PYTHONDONTWRITEBYTECODE"] = "1"
+    try:
+        p = subprocess.run([common.PY, "-m", "harness.store_probe"], capture_output=True, text=True, env=env,
+                           timeout=120, cwd=common.VERIF)
+        if p.returncode != 0:
+            return None
+        return json.loads(p.stdout.strip().splitlines()[-1])
+    except Exception:
+        return None
+
+
+_ATTRS = ("module", "qualname", "arg_types", "return_type", "yield_type")
+
+
+def _journal_ok(sc, what, generator=True, exit_exc=None):
+    """the journal of one add(): every trace taken and the iterable exhausted, THEN one transaction holding exactly
+    one executemany with one row per serialisable trace, in order; nothing else touches the connection"""
+    exp = [e for e in sc["expected"] if e is not None]
+    n = len(sc["expected"])
+    j = sc["journal"]
+    head = ([["yield", i] for i in range(n)] + [["exhausted"]]) if generator else []
+    if j[:len(head)] != head or len(j) != len(head) + 3:
+        raise ExtractError(f"add ({what}): the batch is not consumed completely before the one transaction: "
+                           + str([x[0] for x in j])[:200])
+    ent, ex, out = j[len(head):]
+    if ent != ["enter"] or ex[0] != "executemany" or out != ["exit", exit_exc]:
+        raise ExtractError(f"add ({what}): not __enter__ / one executemany / __exit__: " + str([x[0] for x in j])[-120:])
+    sql, k, rows = ex[1], ex[2], ex[3]
+    if k != len(exp):
+        raise ExtractError(f"add ({what}): {k} rows inserted for {len(exp)} serialisable traces")
+    m = re.fullmatch(r"INSERT INTO %s VALUES \(((?:\?, )*\?)\)" % T_SENT, _norm(sql))
+    if not m:
+        raise ExtractError("add: INSERT statement not recognised: " + _norm(sql))
+    shown = exp if k <= 8 else [exp[0], exp[-1]]
+    if len(rows) != len(shown):
+        raise ExtractError(f"add ({what}): rows of the executemany do not match")
+    return m.group(1).count("?"), rows, shown
+
+
+def add_shape_from_probe(pr):
+    nq, rows, exp = _journal_ok(pr["three"], "3 traces from a generator")
+    attrs = []
+    for pos in range(len(rows[0])):
+        col = [r[pos] for r in rows]
+        if all(v == "<now>" for v in col):
+            attrs.append("<now>")
+            continue
+        names = [a for a in _ATTRS if all(e[a] == v for e, v in zip(exp, col))]
+        if len(names) != 1:
+            raise ExtractError(f"add: inserted value at position {pos} not recognised: {col[0]!r}")
+        attrs.append(names[0])
+    if nq != len(attrs):
+        raise ExtractError("add: number of placeholders differs from the value tuple")
+
+    def same_rows(sc, what, **kw):
+        _, rs, ex = _journal_ok(sc, what, **kw)
+        for r, e in zip(rs, ex):
+            if r != ["<now>" if a == "<now>" else e[a] for a in attrs]:
+                raise ExtractError(f"add ({what}): a row differs from its trace")
+    if pr["three"]["raised"] or not pr["three"]["returned_none"]:
+        raise ExtractError("add: raises / returns something")
+    if pr["three_again"]["journal"] != pr["three"]["journal"]:
+        raise ExtractError("add: a second add of the same traces through the same store behaves differently")
+    same_rows(pr["three_list"], "3 traces in a list", generator=False)
+    same_rows(pr["empty"], "empty batch")
+    same_rows(pr["many"], "1201 traces")
+    same_rows(pr["mixed"], "unserialisable traces in the middle, an exact duplicate")
+    same_rows(pr["fails"], "executemany raising", exit_exc="OperationalError")
+    if pr["fails"]["raised"] != "OperationalError":
+        raise ExtractError("add: an exception of executemany does not leave add()")
+    ev = pr["evil"]
+    if ev["raised"] != "KeyboardInterrupt" or any(x[0] in ("enter", "executemany") for x in ev["journal"]):
+        raise ExtractError("add: a BaseException during serialisation does not abort before the transaction")
+    return "SerialiseThenOneTransaction", attrs
+
+
+def serialise_shape_from_probe(pr):
+    s = pr["serialize"]
+    if not (s["is_iterator"] and s["steps"] == [[1, "Mod0"], [3, "Mod1"], [4, "Mod1"]]
+            and s["logged_with_traceback"] == [True]):
+        raise ExtractError("serialize_traces: not lazy / does not skip-and-log exactly the failing trace: " + str(s)[:200])
+    return "SkipOnException"
+
+
 def evaluated_query(tree, qualname):
     """(whitespace-normalised SQL with the table sentinel written back as {table}, parameter list) of
     make_query(<table>, <module>, qualname, <limit>) for sentinel arguments"""
@@ -631,7 +751,13 @@ def render():
     enc = _parse("monkeytype/encoding.py")
     nf = normal_form(sq)
     cols = table_columns(sq)
-    shape, attrs = add_shape(sq, nf)
+    pr = probe()
+    if pr is not None:          # observation of the real add() / serialize_traces(); the syntactic path is the fallback
+        shape, attrs = add_shape_from_probe(pr)
+        ser = serialise_shape_from_probe(pr)
+    else:
+        shape, attrs = add_shape(sq, nf)
+        ser = serialise_shape(enc)
     if len(attrs) != len(cols):
         raise ExtractError("INSERT arity differs from the table's column count")
     op, select, group = query_shape(sq)
@@ -645,7 +771,7 @@ def render():
     w("Definition store_table_columns : list string := [" + "; ".join(_cs(c) for c in cols) + "].")
     w("Definition store_insert_values : list string := [" + "; ".join(_cs(c) for c in attrs) + "].")
     w(f"Definition store_add_shape : string := {_cs(shape)}.")
-    w(f"Definition store_serialise_shape : string := {_cs(serialise_shape(enc))}.")
+    w(f"Definition store_serialise_shape : string := {_cs(ser)}.")
     w(f"Definition store_qualname_operator : string := {_cs(op)}.")
     w("Definition store_select_columns : list string := [" + "; ".join(_cs(c) for c in select) + "].")
     w("Definition store_group_columns : list string := [" + "; ".join(_cs(c) for c in group) + "].")
